@@ -47,6 +47,19 @@ func (e *Exec) harnessIntrinsic(fn *ssa.Function, args []Value) (Value, bool) {
 	case "vCheck":
 		e.check(asTerm(args[0]), concreteStr(e, args[1]))
 		return nil, true
+	case "vWrapBegin":
+		e.wrapLabel = concreteStr(e, args[0])
+		e.wrapWide = nil
+		return nil, true
+	case "vWrapEnd":
+		if e.wrapBounded > 0 {
+			// the additions/multiplications whose operands' term bounds already exclude a wrap: one record for all
+			e.res.Checks = append(e.res.Checks, CheckRec{Label: e.wrapLabel, Verdict: "discharged"})
+		}
+		e.wrapLabel, e.wrapBounded = "", 0
+		return nil, true
+	case "vNative":
+		return sym.False, true
 	case "vFail":
 		e.check(sym.False, concreteStr(e, args[0]))
 		return nil, true
